@@ -758,12 +758,17 @@ PRIMES = [2, 3, 5, 7, 11, 13, 17, 19, 23, 29, 31, 37, 41, 43, 47, 53, 59, 61, 67
 def next_bkt(e, st, pol, n):
     mlf = e.load(st, pol, ("float",))
     b = next((p for p in PRIMES if p >= n), None)
+    if b is None:
+        raise PathEnd("alloc-too-large", "hash bucket count %d" % n)
     e.store(st, P(pol, 8), int(math.floor(b * mlf)), I64)
     return b
 
 
 def m_next_bkt(e, st, a, I):
-    return next_bkt(e, st, a[0], a[1])
+    n = a[1]
+    if is_sym(n):
+        n = e.concretize(st, n, None, "bucket count hint")
+    return next_bkt(e, st, a[0], n)
 
 
 def m_need_rehash(e, st, a, I):
